@@ -1589,6 +1589,72 @@ static void genRadProd(Rng &r, int count)
     }
 }
 
+// Integer powers n >= 3 (multinomial path, pow_expand) of sums in which one term is a product with a numeric surd:
+// (1 + y + sqrt(2)*x)^3 — the k-th power of that term is a Mul with a non-unit numeric coefficient
+// (sqrt(2)^3 = 2*sqrt(2)), which pow_expand has to multiply into the term's coefficient.  The Lean normaliser treats
+// 2^(1/2) as an opaque atom (a^3 is not 2*a), so the family runs as `rexpand` with the numeric oracle.
+static void genSurdPow(Rng &r, int count)
+{
+    GenOpts o;
+    o.nsyms = 3;
+    static const long ps[] = {2, 3, 5, 6, 7, 10};
+    int made = 0, tries = 0;
+    while (made < count && tries < count * 40) {
+        tries++;
+        try {
+            B surd;
+            unsigned k = r.below(10);
+            long p = ps[r.below(6)];
+            if (k < 6)
+                surd = sqrt(integer(p));
+            else if (k < 8)
+                surd = pow(integer(p), Rational::from_two_ints(*integer(1), *integer(3)));
+            else if (k < 9)
+                surd = pow(integer(p), Rational::from_two_ints(*integer(2), *integer(3)));
+            else
+                surd = pow(integer(p), Rational::from_two_ints(*integer(1), *integer(4)));
+            B t = mul(surd, gsym(r, o));
+            if (r.coin(1, 2))
+                t = mul(r.coin() ? rcp_static_cast<const Basic>(integer(r.range(2, 5)))
+                                 : rcp_static_cast<const Basic>(Rational::from_two_ints(*integer(r.range(1, 5)), *integer(r.range(2, 3)))),
+                        t);
+            if (r.coin(1, 4))
+                t = mul(t, gsym(r, o));
+            vec_basic v{t};
+            int extra = 1 + (int)r.below(3);
+            for (int i = 0; i < extra; i++) {
+                unsigned c = r.below(10);
+                if (c < 3)
+                    v.push_back(integer(r.range(1, 4)));
+                else if (c < 8)
+                    v.push_back(mul(integer(r.range(1, 3)), gsym(r, o)));
+                else
+                    v.push_back(mul(sqrt(integer(ps[r.below(4)])), gsym(r, o))); // a second surd term
+            }
+            B base = add(v);
+            if (!is_a<Add>(*base) || down_cast<const Add &>(*base).get_dict().size() + 1 < 2)
+                continue;
+            long n = r.range(3, 6);
+            if (down_cast<const Add &>(*base).get_dict().size() >= 4 && n > 5)
+                n = 5;
+            B e = pow(base, integer(n));
+            unsigned w = r.below(10);
+            std::string tag = "surdpow";
+            if (w < 2) {
+                e = mul(e, add(gsym(r, o), integer(r.range(1, 3)))); // inside a product of sums
+                tag = "surdpow-in-product";
+            } else if (w < 4) {
+                e = add(e, mul(integer(r.range(1, 3)), gsym(r, o))); // inside a sum
+                tag = "surdpow-in-sum";
+            }
+            if (emitExpand(e, tag, true))
+                made++;
+        } catch (const std::exception &) {
+            stat("gen_constructor_exception");
+        }
+    }
+}
+
 static void genFixed()
 {
     B x = symbol("x"), y = symbol("y"), z = symbol("z"), w = symbol("w");
@@ -1665,5 +1731,6 @@ void hx_gen(Rng &r, const std::string &tier)
     genFamily(r, rad, "radical", 40 * scale, 2, 60, 0);
     genCancel(r, 60 * scale);
     genRadProd(r, 60 * scale);
+    genSurdPow(r, 60 * scale);
     genPairs(r, 120 * scale);
 }
